@@ -4,7 +4,8 @@
 // `XVars` of spec/Console.tla).  Before the probe line the program reports address and size of every
 // local (`C08-VAR name addr size`): the driver overwrites exactly these bytes with poison patterns.
 // A second thread exists (parked) so that `thread switch 2` is a valid command.
-// argv[1] = "segv": dereference a null pointer after the probe line (the "debuggee crashed" state).
+// argv[1] = "segv": dereference a wild pointer after the probe line (the "debuggee crashed" state).
+// argv[1] = "plain": `node.next` stays null (no self-referential pointer among the locals).
 //
 // Build: rustc +1.89 --edition 2021 -g   (done and cached by tools/checks/c08.py)
 #![allow(dead_code, unused_variables, unused_mut)]
@@ -69,7 +70,7 @@ macro_rules! report {
 }
 
 #[inline(never)]
-fn work(n: i32, crash: bool) -> i64 {
+fn work(n: i32, crash: bool, plain: bool) -> i64 {
     let i8v: i8 = -5;
     let u8v: u8 = 200;
     let i64v: i64 = -6_000_000_000;
@@ -115,7 +116,9 @@ fn work(n: i32, crash: bool) -> i64 {
     let rcell: RefCell<Vec<i32>> = RefCell::new(vec![1]);
     let holder: Holder = Holder { id: 1, name: "h".to_string(), tags: vec!["t1", "t2"], pt, mark: PhantomData };
     let mut node: Node = Node { val: 1, next: std::ptr::null(), prev: Some(Box::new(Node { val: 0, next: std::ptr::null(), prev: None })) };
-    node.next = &node as *const Node; // a genuinely self-referential pointer
+    if !plain {
+        node.next = &node as *const Node; // a genuinely self-referential pointer
+    }
     let fptr: fn(i64, i64) -> i64 = sum2;
     report!(
         i8v, u8v, i64v, u64v, i128v, f32v, chr, unit, zst, zarr, vz, strs, string, slice, arr, v, vs, vd, hm, hms, hs,
@@ -133,11 +136,12 @@ fn work(n: i32, crash: bool) -> i64 {
 
 fn main() {
     let crash = std::env::args().nth(1).as_deref() == Some("segv");
+    let plain = std::env::args().nth(1).as_deref() == Some("plain");
     let (tx, rx) = mpsc::channel::<()>();
     let th = std::thread::spawn(move || {
         let _ = rx.recv(); // parked until main is done
     });
-    let r = work(1, crash);
+    let r = work(1, crash, plain);
     println!("C08-RESULT {}", r);
     drop(tx);
     let _ = th.join();
